@@ -404,7 +404,7 @@ def _explore(ctx):
     def random_iter():
         # histories are drawn inside Hypothesis and executed afterwards: hy.macros.require and hy.eval walk the whole call
         # stack with inspect.stack(), which is very slow under the engine's deep stack
-        total = ctx.per_shard(1600, 20000)
+        total = ctx.per_shard(900, 20000)
         rnd = 0
         while total > 0:
             rnd += 1
